@@ -146,7 +146,13 @@ func (c *storeComp) Gen(r *rand.Rand, idx int, emit func(string)) {
 		emit("unp b 1 peers=a")
 		emit("peers b")
 		emit("sleep 1700")
-		emit("unp b 2 peers=" + pick(r, []string{"", "", "zz", "b"}))
+		if (idx/100)%2 == 1 {
+			// ... or it checks in again just in time and is still reported: the old record is stale, the peer is live
+			emit("unp a 7 peers=")
+			emit("unp b 2 peers=" + pick(r, []string{"a", "a,zz", "a,a"}))
+		} else {
+			emit("unp b 2 peers=" + pick(r, []string{"", "", "zz", "b"}))
+		}
 		emit("peers b")
 	}
 	for i := 0; i < n; i++ {
